@@ -35,6 +35,7 @@ deriving DecidableEq, Repr
 inductive Guard
   | stateIn (ss : List SpaState)   -- if self._spa_state == s / in (s1, s2, ..)
   | facadeSome                     -- if self._facade is not None
+  | spaSome                        -- if self._spa is not None  (an abandoned connection attempt may still report after a reset)
 deriving DecidableEq, Repr
 
 structure Branch where
